@@ -16,6 +16,7 @@ LEVEL_NOTE = 'Trusted: datetime/strftime for rendering spellings; numpy [ns] onl
 RULE = ('a case is one calendar day (with one random intraday instant) pushed through every supported spelling; quick: all days of 1900, 1999-2001, 2100, 2299, '
         'every month\'s 1st/12th/13th/last over 1900-2299, all leap days and 3000 random days; thorough: EVERY day of [1900-01-01, 2300-01-01) (exhaustive) plus the '
         'full month/day overflow grid; non-trivial day = ambiguous (day<=12, day!=month) or unambiguous (day>12, where the wrong dialect must be rejected); distinct = distinct day')
+RULE_ALSO = "; added by the coverage audit and round 8: dialect spelt 'UK' / 'US', dt2str format spellings (separators, strftime letters, 'iso') round trip, numpy units ms / h / m"
 ASSUMPTIONS = ['numpy datetime64[ns] spellings only for years < 2262 (ns range)', 'month-name strings in the C/English locale', 'no timezone-aware inputs', 'time-bearing d-m-y strings are compared at second resolution']
 TMIN = datetime.date(1900, 1, 1)
 NDAYS = 146097
